@@ -4,7 +4,8 @@
   seeded/*    meaning-changing regressions: the obligation files that broke at the recorded baseline
               (tools/leaf_bench_baseline.json) must still break                              (no weakening)
 Usage: tools/leaf_bench.py [harmless|seeded|all] [-j N] [--save-baseline]
-Each patch is applied in a scratch worktree of /repo under /tmp/leafbench, tools/leaf_regress.sh runs
+Each patch is applied in a scratch worktree of /repo under /tmp/leafbench, tools/leaf_gate.py (the driver's own
+rule: a block that depends on a target the translator cannot regenerate is dropped, anything else is a failure) runs
 against it, the worktree is removed.  Result: build/leaf_bench.json and a summary on stdout."""
 import json, os, subprocess, sys, glob, shutil, re
 from concurrent.futures import ThreadPoolExecutor
@@ -24,13 +25,14 @@ def one(d):
         if r.returncode != 0:
             res["error"] = "patch does not apply: " + r.stderr[-200:]
             return res
-        r = subprocess.run([os.path.join(ROOT, "tools", "leaf_regress.sh"), wt], capture_output=True, text=True, timeout=1800)
+        r = subprocess.run(["python3", os.path.join(ROOT, "tools", "leaf_gate.py"), wt], capture_output=True, text=True, timeout=3600)
         out = r.stdout + r.stderr
         res["ok"] = sorted(re.findall(r"^ok\s+(\S+)", out, re.M))
+        res["fallback"] = sorted(re.findall(r"^ok-fallback\(\d+\)\s+(\S+)", out, re.M))
         res["fail"] = sorted(re.findall(r"^FAIL\s+(\S+)", out, re.M))
-        if "leaf_regress:" in out:
-            res["fatal"] = [l for l in out.splitlines() if l.startswith("leaf_regress:")][:2]
-        res["untranslatable"] = sorted(set(re.findall(r"leaf: (\S+) untranslatable", out)))
+        if "leaf_gate:" in out:
+            res["fatal"] = [l for l in out.splitlines() if l.startswith("leaf_gate:")][:2]
+        res["untranslatable"] = sorted(set(re.findall(r"^untranslatable (\S+):", out, re.M)))
     finally:
         subprocess.run(["git", "-C", "/repo", "worktree", "remove", "--force", wt], capture_output=True)
         shutil.rmtree(wt, ignore_errors=True)
@@ -56,13 +58,14 @@ def main():
     ss = [r for r in results if "-m" in r["id"]]
     if hs:
         good = [r for r in hs if not r.get("fail") and not r.get("fatal") and "error" not in r]
-        print("harmless: %d/%d leave every obligation intact" % (len(good), len(hs)))
+        full = [r for r in good if not r.get("fallback")]
+        print("harmless: %d/%d raise no alarm (%d with every obligation re-proved, %d with regeneration unavailable for some target)" % (len(good), len(hs), len(full), len(good) - len(full)))
         for r in hs:
             if r not in good:
                 print("  %-12s fail=%s %s" % (r["id"], ",".join(f.replace("_leaf_check.v", "") for f in r.get("fail", [])), r.get("fatal") or r.get("error") or ""))
     if ss:
         brk = [r for r in ss if r.get("fail") or r.get("fatal")]
-        print("seeded: %d/%d break at least one obligation" % (len(brk), len(ss)))
+        print("seeded: %d/%d break at least one obligation (alarm from the proof leg alone)" % (len(brk), len(ss)))
         for r in ss:
             was = set(base.get(r["id"], []))
             now = set(r.get("fail", [])) | ({"FATAL"} if r.get("fatal") else set())
